@@ -350,38 +350,29 @@ func c10map(p *core.Prog, m *ssa.Function) (bool, string) {
 	if core.Path(sub[0].Call.Args[0]) != m.Params[0].Name() {
 		return false, "the forwarding subscription is not registered on the origin (the receiver)"
 	}
-	if len(m.AnonFuncs) != 1 {
+	// the forwarding function: the OnNext of the Subscription handed to Subscribe (closure, method value, ...)
+	var onNext ssa.Value
+	if len(sub[0].Call.Args) > 1 {
+		onNext = core.LiteralField(sub[0].Call.Args[1], "OnNext")
+	}
+	fv := core.ResolveFuncValue(p, onNext)
+	if onNext == nil || fv == nil {
 		return false, "expected exactly one forwarding closure"
 	}
-	fwd := m.AnonFuncs[0]
+	fwd := fv.Fn
+	if len(fwd.Params) == 0 {
+		return false, "the forwarding function takes no value"
+	}
+	in := fwd.Params[len(fwd.Params)-1]
 	// returned publisher
 	var retVal ssa.Value
-	var mc *ssa.MakeClosure
 	core.Instrs(m, func(ins ssa.Instruction) {
 		if r, ok := ins.(*ssa.Return); ok {
 			retVal = core.Resolve(core.RetVals(r)[0])
 		}
-		if x, ok := ins.(*ssa.MakeClosure); ok {
-			mc = x
-		}
 	})
-	// value of a captured variable of the forwarding closure, seen from Map
-	captured := func(v ssa.Value) ssa.Value {
-		u, ok := v.(*ssa.UnOp)
-		if !ok || mc == nil {
-			return nil
-		}
-		for k, fv := range fwd.FreeVars {
-			if u.X == ssa.Value(fv) && k < len(mc.Bindings) {
-				if a, ok := mc.Bindings[k].(*ssa.Alloc); ok {
-					if st := core.Stores(a); len(st) == 1 {
-						return core.Resolve(st[0].Val)
-					}
-				}
-			}
-		}
-		return nil
-	}
+	// value of a captured variable / receiver field of the forwarding function, seen from Map
+	captured := func(v ssa.Value) ssa.Value { return fv.Outer(v) }
 	nPub, okShape := 0, false
 	core.Instrs(fwd, func(ins ssa.Instruction) {
 		call, ok := ins.(*ssa.Call)
@@ -392,7 +383,7 @@ func c10map(p *core.Prog, m *ssa.Function) (bool, string) {
 			nPub++
 			// receiver is the captured new publisher (same variable that Map returns), argument is fn(in)
 			arg, isCall := call.Call.Args[1].(*ssa.Call)
-			if cv := captured(call.Call.Args[0]); cv != nil && cv == retVal && isCall && len(arg.Call.Args) == 1 && arg.Call.Args[0] == ssa.Value(fwd.Params[0]) && captured(arg.Call.Value) == ssa.Value(m.Params[1]) {
+			if cv := captured(call.Call.Args[0]); cv != nil && cv == retVal && isCall && len(arg.Call.Args) == 1 && arg.Call.Args[0] == ssa.Value(in) && captured(arg.Call.Value) == ssa.Value(m.Params[1]) {
 				okShape = true
 			}
 		}
